@@ -87,23 +87,8 @@ impl From<OverflowError> for StreamCipherError {
     fn from(_x: OverflowError) -> StreamCipherError { StreamCipherError }
 }
 
-// SeekNum is implemented by a macro in the dependency (i32 u32 u64 u128 usize): assumed with its arithmetic
-// meaning.  A wrapper position (block, byte) with 1 <= byte <= bs denotes byte offset (block - 1) * bs + byte;
-// a requested offset p is cut into block = p / bs, byte = p % bs.
-pub trait SeekNum: Sized {
-    spec fn sn_val(self) -> int;
-    spec fn sn_fits(v: int) -> bool;
-    fn from_block_byte<T: StreamCipherCounter>(block: T, byte: u8, bs: u8) -> (r: Result<Self, OverflowError>)
-        requires 1 <= byte <= bs
-        ensures
-            r is Ok <==> T::cval(block) * (bs as int) - ((bs - byte) as int) >= 0 && Self::sn_fits(T::cval(block) * (bs as int) - ((bs - byte) as int)),
-            r is Ok ==> r->Ok_0.sn_val() == T::cval(block) * (bs as int) - ((bs - byte) as int);
-    fn into_block_byte<T: StreamCipherCounter>(self, bs: u8) -> (r: Result<(T, u8), OverflowError>)
-        requires bs >= 1
-        ensures
-            r is Ok && self.sn_val() >= 0 ==> T::cval(r->Ok_0.0) == self.sn_val() / (bs as int) && r->Ok_0.1 as int == self.sn_val() % (bs as int),
-            r is Err ==> self.sn_val() < 0 || !T::cfits(self.sn_val() / (bs as int));
-}
+// SeekNum (trait + the macro-generated impls for i32 u32 u64 u128 usize) is extracted from the dependency and verified
+// (contracts/dep_wrapper.py, unit `deps`): no longer assumed.
 
 // ---- block-padding (ASSUMED): the padding scheme is abstract -- `unpad_spec` says which sequences of decrypted blocks
 // carry valid padding and what message they hold
